@@ -1,4 +1,5 @@
 import ESV.Macro.OrderThms
+import ESV.Macro.Pinned
 import ESV.Macro.Import
 import ESV.Beh.Search
 /-
@@ -12,25 +13,63 @@ Ordering part ("every acyclic set of macro definitions compiles regardless of th
 and import part ("imports resolve relative to the importing file, absolutely, or through the lookup paths in their given
 order"): theorems about the models `ESV.Macro` (MacroResolutionOrderVisitor + MacroVisitor's sort) and `ESV.Macro.Imp`
 (`_resolve_imported_file`), which harness/props/c05.py compares with the real code on every run.
+
+Since /repo commit 0989cb8 the ordering statements hold of the model of the code in full (`order_topological`,
+`all_acyclic_compile`).  ESV/Macro/Pinned.lean holds the OLD ordering (`…Pinned`), only as the subject of the
+`_counterexample` theorems below.
 -/
 namespace ESV.C05
 open ESV.Macro
 open scoped List
 
-/-! ## ordering -/
+/-! ## ordering: the code as it is -/
 
-/-- The full statement: for every acyclic input the resolution order lists every callee before its callers.
-It is FALSE for the pinned code (`order_topological_counterexample`). -/
+/-- for every acyclic input the resolution order lists every callee before its callers -/
 def OrderTopological : Prop :=
   ∀ (inp : Input Nat) (l : List Nat), Acyclic inp → visitStart inp = .ok l → Topological inp l
 
-/-- The property's sentence about ordering: every acyclic closed set of macro definitions compiles.
-FALSE for the pinned code (`witness_does_not_compile`). -/
+/-- the property's sentence about ordering: every acyclic closed set of macro definitions compiles (the definition order
+is part of `inp`, so this is "regardless of the order in which the macros are written") -/
 def AllAcyclicCompile : Prop :=
   ∀ (inp : Input Nat), Acyclic inp → (∀ d ∈ inp.defs, ∀ c ∈ d.2, c ∈ inp.imported ∨ ∃ d' ∈ inp.defs, d'.1 = c) →
     ∃ known, compileMacros inp = .ok known
 
-/-- `macro top() { ~mid(); ~leaf(); }  macro mid() { ~leaf(); }  macro leaf() {}` written in this order
+/-- FULL: callees precede callers in the resolution order of every input that has one -/
+theorem order_topological : OrderTopological :=
+  fun _ _ _ h => (order_spec h).2.2
+
+/-- FULL: every acyclic, closed set of macro definitions compiles, in every definition order -/
+theorem all_acyclic_compile : AllAcyclicCompile :=
+  fun inp ac hclosed => Macro.all_acyclic_compile inp ac hclosed
+
+/-- the cycle check rejects exactly the inputs whose macros call each other in a circle -/
+theorem cycle_detected_iff (inp : Input Nat) : (∃ v, visitStart inp = .error (.cycle v)) ↔ ¬ Acyclic inp :=
+  Macro.cycle_detected_iff inp
+
+/-- the ordering loop never fails to find a next macro (`next(…)` does not raise `StopIteration`) … -/
+theorem visit_never_stops (inp : Input Nat) : visitStart inp ≠ .error .stopIteration :=
+  Macro.visit_never_stops inp
+
+/-- … so exactly the acyclic inputs get a resolution order -/
+theorem visitStart_ok_iff (inp : Input Nat) : (∃ l, visitStart inp = .ok l) ↔ Acyclic inp :=
+  Macro.visitStart_ok_iff inp
+
+/-- the resolution order has no duplicates, consists exactly of the mentioned names, and every defined macro occurs in it
+exactly once (MacroVisitor's `list.index` never raises) -/
+theorem order_total (inp : Input Nat) (l : List Nat) (h : visitStart inp = .ok l) :
+    l.Nodup ∧ (∀ x, x ∈ l ↔ Mentioned inp x) ∧ ∀ d ∈ inp.defs, l.count d.1 = 1 :=
+  ⟨(order_spec h).1, (order_spec h).2.1, Macro.order_total h⟩
+
+/-- any duplicate-free order that contains the defined macros and lists callees first makes all macros compile -/
+theorem compiles_of_topological (inp : Input Nat) (l : List Nat) (hnd : l.Nodup)
+    (hall : ∀ d ∈ inp.defs, d.1 ∈ l)
+    (hclosed : ∀ d ∈ inp.defs, ∀ c ∈ d.2, c ∈ inp.imported ∨ ∃ d' ∈ inp.defs, d'.1 = c)
+    (htopo : Topological inp l) : ∃ known, compileWith inp l = .ok known :=
+  Macro.compiles_of_topological inp hnd hall hclosed htopo
+
+/-! ## the repaired defect: the witness against the OLD ordering (`…Pinned`, ESV/Macro/Pinned.lean) -/
+
+/-- `macro top() { ~mid(); ~leaf(); }  macro mid() { ~leaf(); }  macro leaf() { x(); }` written in this order
 (top = 0, mid = 1, leaf = 2) -/
 def witness : Input Nat := ⟨[], [(0, [1, 2]), (1, [2]), (2, [])]⟩
 
@@ -38,71 +77,44 @@ theorem witness_acyclic : Acyclic witness := by
   rw [← build_acyclic_iff, ← Graph.checkCycles_none_iff (build_spec witness).1]
   decide
 
-theorem witness_order : visitStart witness = .ok [2, 0, 1] := by decide
+/-- `OrderTopological` / `AllAcyclicCompile` with the old functions -/
+def OrderTopologicalPinned : Prop :=
+  ∀ (inp : Input Nat) (l : List Nat), Acyclic inp → visitStartPinned inp = .ok l → Topological inp l
 
-theorem order_topological_counterexample : ¬ OrderTopological := by
-  intro h
-  have h1 := h witness [2, 0, 1] witness_acyclic witness_order 1 0 ⟨(0, [1, 2]), by decide, rfl, by decide⟩
+def AllAcyclicCompilePinned : Prop :=
+  ∀ (inp : Input Nat), Acyclic inp → (∀ d ∈ inp.defs, ∀ c ∈ d.2, c ∈ inp.imported ∨ ∃ d' ∈ inp.defs, d'.1 = c) →
+    ∃ known, compileMacrosPinned inp = .ok known
+
+/-- REPAIRED (0989cb8).  The pinned resolver ordered the witness [leaf, top, mid]: `mid` after its caller `top`.
+The repaired code gives [leaf, mid, top]. -/
+theorem order_topological_counterexample :
+    visitStartPinned witness = .ok [2, 0, 1] ∧ ¬ OrderTopologicalPinned ∧ visitStart witness = .ok [2, 1, 0] := by
+  refine ⟨by decide, fun h => ?_, by decide⟩
+  have h1 := h witness [2, 0, 1] witness_acyclic (by decide) 1 0 ⟨(0, [1, 2]), by decide, rfl, by decide⟩
   revert h1
   decide
 
-/-- the same witness is rejected with "Macro mid not found." although it is acyclic and closed -/
-theorem witness_does_not_compile : compileMacros witness = .error (.notFound 1) ∧ ¬ AllAcyclicCompile := by
-  refine ⟨by decide, fun h => ?_⟩
+/-- REPAIRED (0989cb8).  The pinned compiler rejected the witness with "Macro mid not found." although it is acyclic and
+closed; the repaired code compiles leaf, mid, top in this order. -/
+theorem witness_does_not_compile :
+    compileMacrosPinned witness = .error (.notFound 1) ∧ ¬ AllAcyclicCompilePinned ∧ compileMacros witness = .ok [2, 1, 0] := by
+  refine ⟨by decide, fun h => ?_, by decide⟩
   obtain ⟨k, hk⟩ := h witness witness_acyclic (by decide)
-  have : compileMacros witness = .error (.notFound 1) := by decide
+  have : compileMacrosPinned witness = .error (.notFound 1) := by decide
   rw [this] at hk
   cases hk
 
-/-- the cycle check rejects exactly the inputs whose macros call each other in a circle -/
-theorem cycle_detected_iff (inp : Input Nat) : (∃ v, visitStart inp = .error v) ↔ ¬ Acyclic inp :=
-  Macro.cycle_detected_iff inp
-
-/-- acyclic ⇒ every defined macro occurs in the resolution order exactly once (MacroVisitor's `list.index` never raises) -/
-theorem order_total (inp : Input Nat) (l : List Nat) (ac : Acyclic inp) (h : visitStart inp = .ok l) :
-    l.Nodup ∧ (∀ x, x ∈ l ↔ Mentioned inp x) ∧ ∀ d ∈ inp.defs, l.count d.1 = 1 :=
-  ⟨(order_spec ac h).1, (order_spec ac h).2, Macro.order_total ac h⟩
-
-/-- `OrderTopological` under the decidable guard `guard inp`: for every root (macro that calls nothing) the lengths of
-all call chains from a macro down to that root are equal -/
-theorem order_topological_partial (inp : Input Nat) (l : List Nat) (ac : Acyclic inp) (hg : guard inp = true)
-    (h : visitStart inp = .ok l) : Topological inp l :=
-  Macro.order_topological_partial ac hg h
-
-/-- a topological resolution order makes all macros compile -/
-theorem compiles_of_topological (inp : Input Nat) (l : List Nat) (h : visitStart inp = .ok l) (hnd : l.Nodup)
-    (hall : ∀ d ∈ inp.defs, d.1 ∈ l)
-    (hclosed : ∀ d ∈ inp.defs, ∀ c ∈ d.2, c ∈ inp.imported ∨ ∃ d' ∈ inp.defs, d'.1 = c)
-    (htopo : Topological inp l) : ∃ known, compileMacros inp = .ok known :=
-  Macro.compiles_of_topological inp h hnd hall hclosed htopo
-
-/-- `AllAcyclicCompile` under the same guard -/
-theorem all_macros_compile_partial (inp : Input Nat) (ac : Acyclic inp) (hg : guard inp = true)
-    (hclosed : ∀ d ∈ inp.defs, ∀ c ∈ d.2, c ∈ inp.imported ∨ ∃ d' ∈ inp.defs, d'.1 = c) :
-    ∃ known, compileMacros inp = .ok known :=
-  Macro.all_macros_compile_partial inp ac hg hclosed
-
-/-- the repair: a stable Kahn order is topological whenever it exists … -/
-theorem topoOrder_topological (inp : Input Nat) (l : List Nat) (h : topoOrder inp = some l) :
-    (∀ x, x ∈ l ↔ Mentioned inp x) ∧ l.Nodup ∧ Topological inp l :=
-  Macro.topoOrder_topological inp h
-
-/-- … and exists for every acyclic input -/
-theorem topoOrder_complete (inp : Input Nat) (ac : Acyclic inp) : ∃ l, topoOrder inp = some l :=
-  Macro.topoOrder_complete inp ac
-
-/-! non-vacuity: a diamond with a shared callee and depth 3 satisfies the guard, is acyclic, and compiles in a definition
-order in which callers come first; the witness does not satisfy the guard; the repair orders the witness correctly -/
+/-! non-vacuity: a diamond with a shared callee, an imported macro and depth 3, written callers first, is acyclic and
+compiles; a cycle is rejected; the loop's choice is the FIRST ready macro in order of first mention -/
 def diamond : Input Nat := ⟨[9], [(0, [1, 2]), (1, [3, 9]), (2, [3]), (3, [])]⟩
 
-example : guard diamond = true := by decide
 example : Acyclic diamond := by
   rw [← build_acyclic_iff, ← Graph.checkCycles_none_iff (build_spec diamond).1]
   decide
+example : visitStart diamond = .ok [9, 3, 1, 2, 0] := by decide
 example : compileMacros diamond = .ok [9, 3, 1, 2, 0] := by decide
-example : guard witness = false := by decide
-example : topoOrder witness = some [2, 1, 0] := by decide
-example : ∃ v, visitStart (⟨[], [(0, [1]), (1, [0])]⟩ : Input Nat) = .error v := ⟨0, by decide⟩
+example : visitStart (⟨[], [(0, [1]), (1, [0])]⟩ : Input Nat) = .error (.cycle 0) := by decide
+example : visitStart (⟨[], [(5, []), (4, [6]), (6, [])]⟩ : Input Nat) = .ok [5, 6, 4] := by decide
 
 /-! ## import resolution -/
 
